@@ -182,6 +182,23 @@ fn main() {
             single_findings.push(format!("FINDING {key} a single instantiation of world `{world}` (every import implicit) does not give a valid component: {:?}", bad));
         }
     }
+    // a component importing two core modules whose types share core function signatures (dependencies embedded only: writing
+    // the component TYPE of such a package panics - the recorded C08 finding)
+    {
+        let bytes = wat::parse_str(r#"(component
+  (import "m1" (core module (import "e" "f" (func)) (export "g" (func (param i32) (result i32)))))
+  (import "m2" (core module (export "f" (func)) (export "g" (func (param i32) (result i32))) (export "h" (func (param i32 i32)))))
+)"#).unwrap();
+        let mut g = CompositionGraph::new();
+        let p = Package::from_bytes("t:mods", None, bytes, g.types_mut()).unwrap();
+        let pid = g.register_package(p).unwrap();
+        g.instantiate(pid);
+        for val in [true, false] {
+            outputs += 1;
+            let r = match g.encode(EncodeOptions { define_components: true, validate: val, processor: None }) { Ok(b) => validate(&b), Err(e) => Err(format!("{e:#}")) };
+            if let Err(e) = r { println!("C01-BOUNDED VIOLATION: a single instantiation of a component importing two core modules (implicit imports, dependencies embedded, validate={val}) does not give a valid component: {e}"); std::process::exit(1); }
+        }
+    }
     for f in &single_findings { println!("{f}"); }
     if let Some(f) = &first_late { println!("FINDING late-validation-resource-identity {late_resource} encodings, e.g. {f}"); }
     if let Some(f) = &first_export { println!("FINDING late-validation-export-order {late_export} encodings, e.g. {f}"); }
